@@ -630,6 +630,7 @@ Proof.
   apply andb_true_iff in H. destruct H as [H H4].
   apply andb_true_iff in H. destruct H as [H _].
   apply andb_true_iff in H. destruct H as [H _].
+  apply andb_true_iff in H. destruct H as [H _].
   apply andb_true_iff in H. destruct H as [H1 H2].
   unfold disk_eqb in H2.
   apply andb_true_iff in H2. destruct H2 as [H2 Hkv].
@@ -699,4 +700,47 @@ Proof.
   intros H Hw. split; [exact (agrees_tokens_equal _ _ H Hw)|].
   split; [exact (agrees_tokens_persisted _ _ H)|].
   apply (agrees_kv_monotone _ (c_disk0 c)); [reflexivity | exact H].
+Qed.
+
+(* ---------- what every service instance presents ---------- *)
+Lemma set_nth_app_last {A} (h : list A) x p : set_nth (h ++ [x]) (length h) p = h ++ [p].
+Proof. induction h as [|y r IH]; cbn [app length set_nth]; [reflexivity | rewrite IH; reflexivity]. Qed.
+
+Lemma construct_spec stored h i : construct stored h i = (h ++ [presented_spec stored i], length h).
+Proof.
+  unfold construct, presented_spec. destruct (i_kind i); try reflexivity.
+  destruct (i_opt i) as [p|]; [|reflexivity]. rewrite set_nth_app_last. reflexivity.
+Qed.
+
+(* constructing further instances never touches an earlier instance's cell *)
+Lemma construct_all_spec stored : forall is h,
+  construct_all stored h is = (h ++ map (presented_spec stored) is, seq (length h) (length is)).
+Proof.
+  induction is as [|i r IH]; intro h; cbn [construct_all map length seq].
+  - rewrite app_nil_r. reflexivity.
+  - rewrite construct_spec, IH. rewrite app_length, <- app_assoc. cbn [length app].
+    replace (length h + 1) with (S (length h)) by lia. reflexivity.
+Qed.
+
+Lemma map_nth_seq {A} (d : A) : forall l, map (fun c => nth c l d) (seq 0 (length l)) = l.
+Proof.
+  induction l as [|x r IH]; [reflexivity|].
+  cbn [length seq map nth]. f_equal. rewrite <- seq_shift, map_map. cbn [nth]. exact IH.
+Qed.
+
+Lemma presented_is_spec stored is : presented stored is = map (presented_spec stored) is.
+Proof.
+  unfold presented. rewrite construct_all_spec. cbn [app length].
+  rewrite <- (map_length (presented_spec stored) is). apply map_nth_seq.
+Qed.
+
+(* an instance that carries no operator key presents the stored identity, whatever other
+   instances are configured next to it and in whatever order they are constructed *)
+Lemma presented_stored stored is n i :
+  nth_error is n = Some i -> has_opkey i = false ->
+  nth_error (presented stored is) n = Some (stored (i_kind i)).
+Proof.
+  intros Hn Ho. rewrite presented_is_spec. rewrite (map_nth_error _ _ _ Hn). f_equal.
+  unfold presented_spec. unfold has_opkey in Ho.
+  destruct (i_kind i); try reflexivity. destruct (i_opt i); [discriminate Ho | reflexivity].
 Qed.
